@@ -29,6 +29,7 @@ import M4riProofs.EchelonTop
 import M4riProofs.GenTie
 import M4riProofs.GenTieGlue
 import M4riProofs.GenTieKer
+import M4riProofs.GenTieClose2
 namespace M4ri.Props.C05
 open M4ri M4ri.BMat
 
@@ -129,5 +130,13 @@ theorem tri_inverse_value {U : BMat} (hU : U.WF) (hsq : U.ncols = U.nrows) (hut 
 #check @M4ri.GenTieKer.invM4ri_entries
 #check @M4ri.GenTieKer.invM4ri_model_eq
 #check @M4ri.GenTieKer.mzdCopy_eq
+
+
+/-! ### THE RECURSION CLOSED on the C text (GenTieClose2.lean): `cTrtri n` = the generated `mzd_trtri_upper` bound to itself `n` levels deep with the
+    closed TRSM recursions as its callees: for every depth it stores the two-sided inverse of the unit upper triangular matrix -/
+#check @M4ri.GenTieClose2.cTrtri_correct
+#check @M4ri.GenTieClose2.cTrtri_inv
+#check @M4ri.GenTieClose2.cTrtri_spec
+#check @M4ri.GenTieClose2.cTrtri_window
 
 end M4ri.Props.C05
